@@ -441,6 +441,7 @@ def _time(ctx: Ctx, model, mod):
     ci = mod.classes.get("AvpTime")
     if ci is None:
         raise AnalysisError("AvpTime not found")
+    _time_zone(ctx, model, mod, ci)
     f = lambda n: model.try_fold(ci.class_assigns.get(n), mod, ci) if ci.class_assigns.get(n) is not None else None
     s1900, ovf, cut = f("seconds_since_1900"), f("overflow_timestamp"), f("overflow_detection_cutoff")
     cons = "AvpTime:constants"
@@ -471,6 +472,10 @@ def _time(ctx: Ctx, model, mod):
             if n.kind != "stmt":
                 continue
             for b in ast.walk(n.ast):
+                if isinstance(b, ast.AugAssign) and isinstance(b.target, ast.Name):
+                    # `seconds += self.overflow_timestamp` is `seconds = seconds + ...`
+                    b = ast.copy_location(ast.BinOp(left=ast.Name(id=b.target.id, ctx=ast.Load()),
+                                                    op=b.op, right=b.value), b)
                 if isinstance(b, ast.BinOp) and isinstance(b.op, (ast.Add, ast.Sub)) and \
                         A.dotted(b.right) in ("self.overflow_timestamp", "self.seconds_since_1900") and \
                         isinstance(b.left, ast.Name):
@@ -514,6 +519,72 @@ def _time(ctx: Ctx, model, mod):
                          "2104-02-26 09:42:23 UTC is packed modulo 2^32 and read back as a date of the "
                          "other era (1950-01-01 -> 2086-02-06, 2105-01-01 -> 1968-11-24) instead of being "
                          "rejected")
+
+
+def _time_zone(ctx: Ctx, model, mod, ci):
+    """Getter and setter of AvpTime agree on what a datetime without time zone means."""
+    cons = "AvpTime.value:time-zone-convention"
+    ctx.inst(cons, rule="C01-R5")
+    getter, setter = ci.methods.get("value"), ci.setters.get("value")
+    if getter is None or setter is None:
+        return
+
+    def naive_dt(e, depth=2):
+        """datetime(...) without tzinfo, directly or through a class constant / module constant"""
+        if isinstance(e, ast.Call) and A.call_name(e) in ("datetime.datetime", "datetime"):
+            return not any(k.arg == "tzinfo" for k in e.keywords) and len(e.args) < 8
+        if depth and isinstance(e, ast.Attribute) and A.dotted(e.value) in ("self", "cls", ci.name):
+            r = model.class_attr_expr(ci, e.attr)
+            return naive_dt(r[1], depth - 1) if r else None
+        if depth and isinstance(e, ast.Name):
+            b = mod.lookup(e.id)
+            v = getattr(b.node, "value", None) if b is not None and b.kind == "assign" else None
+            return naive_dt(v, depth - 1) if v is not None else None
+        return None
+    produced = set()
+    for n in ast.walk(getter.node):
+        if isinstance(n, ast.Call):
+            nm = A.call_name(n)
+            if nm.endswith("utcfromtimestamp"):
+                produced.add(("naive-utc", n))
+            elif nm.endswith("fromtimestamp"):
+                aware = len(n.args) > 1 or any(k.arg == "tz" for k in n.keywords)
+                produced.add(("aware" if aware else "naive-local", n))
+        elif isinstance(n, ast.BinOp) and isinstance(n.op, ast.Add) and \
+                any("timedelta" in ast.unparse(x) for x in (n.left, n.right)):
+            for side in (n.left, n.right):
+                nd = naive_dt(side)
+                if nd is True:
+                    produced.add(("naive-utc", n))
+                elif nd is False:
+                    produced.add(("aware", n))
+    consumed = set()
+    for n in ast.walk(setter.node):
+        if isinstance(n, ast.Call):
+            nm = A.call_name(n)
+            if nm.endswith(".timestamp") and not n.args:
+                consumed.add("timestamp()")      # naive = local time, aware = exact
+            elif nm.endswith("timegm"):
+                consumed.add("timegm")           # naive = UTC
+            elif nm.endswith(".replace") and any(k.arg == "tzinfo" for k in n.keywords):
+                consumed.add("replace(tzinfo)")  # naive = that zone (UTC by convention)
+    ctx.rules["C01-R5"]["nontrivial"].add(cons)
+    kinds = {k for k, _ in produced}
+    if "naive-utc" in kinds and consumed == {"timestamp()"}:
+        n = [x for k, x in produced if k == "naive-utc"][0]
+        ctx.fail(cons, getter.loc(n), f"the getter builds a datetime without time zone that means UTC "
+                 f"(`{ast.unparse(n)[:70]}`) while the setter reads a datetime without time zone as "
+                 f"local time (`.timestamp()`): wherever the local zone is not UTC a decoded Time, "
+                 f"assigned again, is shifted by the UTC offset - decode(encode(x)) != x and "
+                 f"encode-decode-encode changes the bytes", rule="C01-R5",
+                 expected="both sides local-naive (fromtimestamp / timestamp()) or both zone-aware",
+                 observed="getter naive-UTC, setter naive-local")
+    if "naive-local" in kinds and consumed and consumed <= {"timegm", "replace(tzinfo)"}:
+        n = [x for k, x in produced if k == "naive-local"][0]
+        ctx.fail(cons, getter.loc(n), f"the getter builds a local-time datetime "
+                 f"(`{ast.unparse(n)[:70]}`) while the setter reads a datetime without time zone as "
+                 f"UTC ({sorted(consumed)}): values are shifted by the UTC offset on every round trip",
+                 rule="C01-R5")
 
 
 def _grouped(ctx: Ctx, model, mod):
